@@ -10,6 +10,6 @@ git -C /repo archive HEAD sbepp sbeppc CMakeLists.txt test/schemas | tar -x -C $
 (cd $S && git init -q . && git apply "$P") || { echo "patch does not apply"; rm -rf $S; exit 2; }
 for c in "$@"; do
   echo "=== $c"
-  (cd /verif && VERIF_REPO=$S timeout 3000 ./vcheck $c --tier quick 2>&1 | grep -E "^VIOLATION|^  key:|^OK|^INCONCLUSIVE|^KNOWN|HARNESS" | cut -c1-260 | head -12)
+  (cd /verif && VERIF_REPO=$S VERIF_EVIDENCE_DIR=/tmp/wt/evidence_trial timeout 3000 ./vcheck $c --tier quick 2>&1 | grep -E "^VIOLATION|^  key:|^OK|^INCONCLUSIVE|^KNOWN|HARNESS" | cut -c1-260 | head -12)
 done
 rm -rf $S
